@@ -1,5 +1,5 @@
 \* generation: one JSON line per completed behaviour (use -simulate for large counts, -workers 1)
-CONSTANTS NI = 2  Counts = {0, 1, 9, 10, 11, 15}  Outs = {"o1", "o2"}  Scatter = TRUE  Eager = FALSE
+CONSTANTS NI = 2  Counts = {0, 1, 9, 10, 11, 15}  Outs = {"o1", "o2"}  Scatter = TRUE  IdxSet = {0, 1}  Eager = FALSE
 INIT Init
 NEXT GenNext
 INVARIANT GenEmit
